@@ -29,9 +29,27 @@ def run(ctx):
     c, callees = AR.chunk_argreduce_contract()
     ex, obs = add_to_ctx(ctx, c, callees)
     n += len(obs)
+    import vlib.pyvc.prims as P
+
+    from ..contracts import argpre as AP
+
+    n_pre = 0
+    for c2, callees2, models2 in AP.all_argpre():
+        orig = P.Prims.register_defaults
+
+        def reg(self, orig=orig, models2=models2):
+            orig(self)
+            models2(self)
+
+        P.Prims.register_defaults = reg
+        try:
+            ex2, obs2 = add_to_ctx(ctx, c2, callees2)
+        finally:
+            P.Prims.register_defaults = orig
+        n_pre += len(obs2)
     from ..pyvc import conformance
     from . import tree_proofs
 
     tree_note = tree_proofs.run(ctx, "C06")
     conformance.add_to_ctx(ctx, ["chunk_reduce on an arg-reduction"])
-    return f"arg-reduction pair algebra, _pick_second, chunk_argreduce (reports the global position idx[p] of the block-local extreme p, a member of the group with the reported value): {n} obligations. " + tree_note
+    return f"arg-reduction pair algebra, _pick_second, chunk_argreduce (reports the global position idx[p] of the block-local extreme p, a member of the group with the reported value): {n} obligations; argreduce_preprocess (rank 1-3, every axis): {n_pre} obligations (positions span and are chunked like the reduced axis of the data, broadcast along that axis only, zipped data-first, layer named by a token of data and positions). " + tree_note
